@@ -409,4 +409,47 @@ def gossipOp (c : Cluster) (cl sv : Nat) (k : String) : Cluster × String :=
     ({ reps := (c.reps.set cl a').set sv b', clk := clk' }, tr)
   | _, _ => (c, "bad")
 
+/-! ### Merkle leaf names (`repair.go buildLeafNodeEntity` / `parseLeafNodeEntity`) -/
+
+/-- `'/'` -/
+def leafSep : Byte := 47
+
+/-- `strings.SplitN(entity, "/", leafParts)` -/
+def leafParts : Nat := 3
+
+/-- `fmt.Sprintf("%s/%s/%s", group, name, entityID)` on UTF-8 bytes. -/
+def buildLeaf (g n id : List Byte) : List Byte := g ++ [leafSep] ++ n ++ [leafSep] ++ id
+
+/-- split at the first separator. -/
+def splitFirst : List Byte → Option (List Byte × List Byte)
+  | [] => none
+  | c :: cs =>
+    if c = leafSep then some ([], cs)
+    else match splitFirst cs with
+      | some (a, b) => some (c :: a, b)
+      | none => none
+
+/-- `parseLeafNodeEntity`: `strings.SplitN(entity, "/", 3)` must give three parts — the third part keeps every
+    further separator. -/
+def parseLeaf (e : List Byte) : Option (List Byte × List Byte × List Byte) :=
+  match splitFirst e with
+  | none => none
+  | some (g, r) =>
+    match splitFirst r with
+    | none => none
+    | some (n, id) => some (g, n, id)
+
+/-- `strings.Split(entity, "/")` (all separators) — what a parse that demands exactly three parts of it would see. -/
+def splitAll : List Byte → List (List Byte)
+  | [] => [[]]
+  | c :: cs =>
+    match splitAll cs with
+    | [] => [[]]
+    | p :: ps => if c = leafSep then [] :: p :: ps else (c :: p) :: ps
+
+def parseLeafSplitAll (e : List Byte) : Option (List Byte × List Byte × List Byte) :=
+  match splitAll e with
+  | [g, n, id] => some (g, n, id)
+  | _ => none
+
 end Banyan.C18
